@@ -1,7 +1,8 @@
 Require Import ExtrOcamlBasic.
 From Eupsv Require Import Base.Base Model.PathAlg Model.Setup Model.SetupWf Model.Resolve Model.SetupFull Generated.Config
-  Model.SetupText.
+  Model.SetupText Model.ResolveReal.
 Extraction "model.ml" keep_types setup request find_setup_product setup_string
   wf2_check wf2_fields dl_of rank_of
   request_full_simple setup_full_simple select_vro entry_str site_config default_config
-  world_of_text product_of_text setup_text request_text.
+  world_of_text product_of_text setup_text request_text
+  request_full_real request_full_real_checked full_domain fw_real_ok fw_conv db_sorted db_of.
